@@ -8,8 +8,13 @@ VS = {"engine": "valuespace", "needs": ["hz", "enum", "valuespace"], "level": "e
 WS = {"engine": "wirespace", "needs": ["hz", "enum", "wirespace"], "level": "exploration",
       "gen": {"quick": ["mx"], "thorough": ["mx", "mxall"]}}
 
+BS = {"engine": "bytespace", "needs": ["hz", "enum", "bytespace"], "level": "exploration",
+      "gen": {"quick": ["mx"], "thorough": ["mx"]}}
+
 PROPS = {
+    "C06": dict(BS),
     "C03": dict(WS),
+    "C14": dict(WS),
     "C01": dict(VS),
     "C02": dict(VS),
     "C04": dict(VS),
